@@ -1,2 +1,3 @@
 import PyhmsVerif.Props.C17
 import PyhmsVerif.Props.C16
+import PyhmsVerif.Props.C12
